@@ -19,7 +19,7 @@ pub const C03_PROBES: &[&str] = &[
 ];
 
 /// Applies 1..3 structured mutations to a valid wire (record boundaries known).
-fn mutate(cx: &mut Ctx, recs: &[Rec]) -> Vec<u8> {
+pub fn mutate(cx: &mut Ctx, recs: &[Rec]) -> Vec<u8> {
     let mut recs: Vec<Rec> = recs.to_vec();
     let mut wire: Option<Vec<u8>> = None;
     let n = 1 + cx.ch.pick(3);
